@@ -9,6 +9,8 @@ requests (ints in decimal, lists "1,2,3", "-" = empty list):
   count <v> | contains <v> | find <v> | index <v> | remove <v> | sort <0|1>
   cmp <lt|le|eq|ge|gt|ne> <list>
   dump
+  new2 <list>                          start the companion list (same f); a request prefixed with the token `@2`
+                                       acts on the companion list (parallel lists sharing index objects)
   uv <a> <n>                           runtime.unit_vector (stateless)
 answer:  R=<none | v:<int> | l:<list> | e:<Error>>;S=<contents>;T=<trace events, comma separated>
 -/
@@ -105,7 +107,7 @@ def parseOp? : List String → Option Op
   | ["cmp", o, l] => do pure (Op.cmp (← parseCmp? o) (← parseIntList? l))
   | _ => none
 
-abbrev St := Nat × List Int
+abbrev St := Nat × List Int × List Int
 
 def answer (r : Res) (x : List Int) (t : List Ev) : String :=
   s!"R={showRes r};S={showIntList x};T={showTrace t}"
@@ -114,20 +116,31 @@ def stepLine (st : St) (line : String) : St × String :=
   match tokens line with
   | ["new", f, l] =>
     match parseNat? f, parseIntList? l with
-    | some f, some l => ((f, l), answer Res.none l [])
+    | some f, some l => ((f, l, []), answer Res.none l [])
     | _, _ => (st, "bad-op")
-  | ["dump"] => (st, answer Res.none st.2 [])
+  | ["new2", l] =>
+    match parseIntList? l with
+    | some l => ((st.1, st.2.1, l), answer Res.none l [])
+    | none => (st, "bad-op")
+  | ["dump"] => (st, answer Res.none st.2.1 [])
   | ["uv", a, n] =>
     match parseInt? a, parseNat? n with
     | some a, some n => (st, showIntList (unitVector a n))
     | _, _ => (st, "bad-op")
+  | "@2" :: toks =>
+    match parseOp? toks with
+    | some op =>
+      let cfg : Cfg := { f := st.1, srt := srt }
+      let r := step cfg st.2.2 op
+      ((st.1, st.2.1, r.2), answer r.1 r.2 (trace cfg st.2.2 op))
+    | none => (st, "bad-op")
   | toks =>
     match parseOp? toks with
     | some op =>
       let cfg : Cfg := { f := st.1, srt := srt }
-      let r := step cfg st.2 op
-      ((st.1, r.2), answer r.1 r.2 (trace cfg st.2 op))
+      let r := step cfg st.2.1 op
+      ((st.1, r.2, st.2.2), answer r.1 r.2 (trace cfg st.2.1 op))
     | none => (st, "bad-op")
 
 def main : IO Unit := do
-  loopS (← IO.getStdin) stepLine ((0, []) : St)
+  loopS (← IO.getStdin) stepLine ((0, [], []) : St)
